@@ -36,15 +36,46 @@ type Case struct {
 	Inputs []string `json:"inputs"`
 }
 
-func check(c Case) error {
+func check(c Case) error { return checkWith(c, true) }
+
+// checkWith: exclude=false for replayed and regression cases, which are judged as they are.
+func checkWith(c Case, exclude bool) error {
 	pbt.InFlight("inflight", c)
 	// depth and duration limits are safety nets only: generated programs terminate by construction
 	a, ga, _ := sess.RunAll(sess.Config{MaxDepth: 2000, MaxDuration: 4 * time.Second}, []string{gen.TypedPrelude}, c.Inputs)
 	b, gb, _ := sess.RunAll(sess.Config{NoReg: true, MaxDepth: 2000, MaxDuration: 4 * time.Second}, []string{gen.TypedPrelude}, c.Inputs)
+	if exclude && pbt.KnownOpen(kParamRetype) {
+		// K-C05-2 is recognised by its call site: the one place that raises this message. The generators steer
+		// around it by the types they track, but what a name holds also depends on the order of calls (a function
+		// re-typing a global). Everything up to the failing assignment is still compared.
+		for i, r := range a {
+			if !hasRetypeError(r) {
+				continue
+			}
+			if d := sess.CompareRuns(c.Inputs[:i], a[:i], b[:i], "", "", "registers", "no registers", sess.DiffOptions{SkipGlobals: true}); d != "" {
+				return fmt.Errorf("%s\nall inputs:\n%s", d, strings.Join(c.Inputs, "\n---\n"))
+			}
+			if !strings.HasPrefix(b[i].Out, r.Out) && !sess.TimedOut(b[i]) && !sess.MemoryRefused(b[i]) {
+				return fmt.Errorf("input #%d %q prints\n  %q with registers (up to a non-integer assigned to an integer parameter) but\n  %q with no registers\nall inputs:\n%s",
+					i, c.Inputs[i], r.Out, b[i].Out, strings.Join(c.Inputs, "\n---\n"))
+			}
+			pbt.Excluded(kParamRetype)
+			return nil
+		}
+	}
 	if d := sess.CompareRuns(c.Inputs, a, b, ga, gb, "registers", "no registers", sess.DiffOptions{IgnoreGlobal: ignoreGlobal}); d != "" {
 		return fmt.Errorf("%s\nall inputs:\n%s", d, strings.Join(c.Inputs, "\n---\n"))
 	}
 	return nil
+}
+
+func hasRetypeError(r sess.Res) bool {
+	for _, e := range r.Errs {
+		if strings.Contains(e, "register assignment of non integer") {
+			return true
+		}
+	}
+	return false
 }
 
 type shape struct {
@@ -313,7 +344,7 @@ func oracle(kind string, raw json.RawMessage) error {
 	if err := json.Unmarshal(raw, &c); err != nil {
 		return err
 	}
-	return check(c)
+	return checkWith(c, false)
 }
 
 func TestReplay(t *testing.T)   { pbt.RunReplay(t, oracle) }
